@@ -18,11 +18,12 @@ RULE = ("generated CSV files driven through the real outrank_task_conduct_rankin
         "non-trivial = at least one batch boundary or tail decision within 2 rows of the accepted-row count, or a malformed "
         "selected row; distinct = distinct (B, s, ncols, line layout, heuristic, mode)")
 THEOREMS = ["C08_batches", "C08_chunks", "C08_chunks_unique", "C08_selected", "C08_invalid_count", "C08_median",
-            "C08_median_rows", "C08_median_one_row_per_pair", "C08_scores_of", "C08_median2_meaning", "C08_median_rank", "C08_sorted",
+            "C08_median_rows", "C08_median_one_row_per_pair", "C08_scores_of", "C08_median2_meaning", "C08_median_per_batch", "C08_median_replicate", "C08_weighted_median_differs",
+            "C08_per_batch_table", "C08_median_rank", "C08_sorted",
             "C08_checkpoint_prefix", "C08_grouped", "C08_model_spec", "C08_check_sound"]
 TAIL_MIN = 1024          # the property's constant; coq/Pipeline/Stream.v tail_min
 HEURISTICS = ["MI-numba-randomized", "max-value-coverage", "MI-numba"]
-TOL = 1e-12
+TOL = 2.0 ** -52      # one unit in the last place: the only rounding is fl(x + y) of the two middle scores
 
 
 # ---------------------------------------------------------------------------------------------------------------
@@ -79,7 +80,7 @@ def gen_case(rng, family=None):
     ncols = rng.choice([3, 4, 4, 5])
     cols = ["id"] + ["f%d" % i for i in range(1, ncols - 1)] + ["label"]
     s = rng.choice([1, 1, 2, 3, 5])
-    family = family or rng.choice(["tail", "tail", "lines", "small", "random"])
+    family = family or rng.choice(["tail", "tail", "lines", "small", "random", "cap"])
     exact_lines = None
     if family == "tail":
         B = rng.choice([1026, 1027, 1100, 1300, 1500, 2048])
@@ -103,13 +104,29 @@ def gen_case(rng, family=None):
         G = rng.randint(0, 12) * B + rng.choice([0, 1, B - 1, rng.randint(0, B)])
         G = max(0, min(G, 2200 // s if B > 7 else 40))
         n_bad = rng.choice([0, 2, 5, 12])
+    elif family == "cap":
+        B, G, n_bad = 64, 0, 0        # set below
     else:
         B = rng.choice([900, 1024, 1025, 1026, 1200, 1999, 3000])
         G = rng.randint(0, 6200 // s)
         n_bad = rng.choice([0, 1, 4, 10, 30])
     lines = layout(rng, B, s, ncols, G, n_bad, rng.randint(0, s), exact_lines)
-    case = {"B": B, "s": s, "cols": cols, "heuristic": rng.choice(HEURISTICS),
-            "target_only": rng.choice(["True", "True", "False"]), "seed": rng.randint(0, 10 ** 6),
+    if family == "cap":
+        B = rng.choice([40, 64, 100])
+        G = rng.randint(5, 12) * B + rng.choice([0, 3])
+        n_bad = rng.choice([0, 2])
+        ncols = rng.choice([3, 3, 4])
+        cols = ["id"] + ["f%d" % i for i in range(1, ncols - 1)] + ["label"]
+        lines = layout(rng, B, s, ncols, G, n_bad, 0, None)
+    tro = rng.choice(["True", "True", "False"]) if family != "cap" else "False"
+    ncand = ncols if tro == "True" else ncols * (ncols + 1) // 2
+    cap = 2 ** 15
+    if family == "cap":
+        cap = rng.choice([ncand - 1, ncand - 1, ncand - 2, rng.randint(1, ncand - 1)])
+    elif rng.random() < 0.3 and ncand > 1:
+        cap = rng.randint(1, ncand - 1)
+    case = {"B": B, "s": s, "cols": cols, "heuristic": rng.choice(HEURISTICS), "cap": max(1, cap),
+            "target_only": tro, "seed": rng.randint(0, 10 ** 6),
             "segments": rle(lines), "entry": rng.choice(["task", "task", "task", "direct"]),
             "trailing_newline": rng.random() < 0.8, "crlf": rng.random() < 0.15, "family": family}
     return case
@@ -309,7 +326,9 @@ def encode_case(case, res, enc):
             krows.append((parse_id(b["ids"][0]), rows(b["triplets"])))
     inv = res.get("invalid_logged") or []
     oi = inv[0] if len(inv) == 1 and inv[0] >= 0 else (0 if not inv else 10 ** 6)
-    final = res.get("pairwise") if case.get("entry", "task") == "task" else sorted(res.get("grouped") or [], key=lambda t: t[2])
+    # entry=direct: no pairwise_ranks.tsv is written; the returned frame stands in for the content clauses and the
+    # "ascending" clause is not judged there (the harness does not sort anything itself)
+    final = res.get("pairwise") if case.get("entry", "task") == "task" else (res.get("grouped") or [])
     return {"B": case["B"], "s": case["s"], "ncols": len(case["cols"]), "tail": TAIL_MIN,
             "segs": [(c, nf) for c, nf, _ in case["segments"]], "krows": krows,
             "ob": [[parse_id(i) for i in b["ids"]] for b in res["batches"]], "oi": oi,
@@ -399,7 +418,7 @@ def py_reference_batches(B, s, ncols, tail, lines):          # selected / good /
 
 
 def py_close2(a, b):
-    return abs(a - b) * 10 ** 12 <= max(abs(a), abs(b))
+    return abs(a - b) * 2 ** 52 <= max(abs(a), abs(b))
 
 
 def py_table_close(t1, t2):
@@ -410,7 +429,7 @@ def py_table_close(t1, t2):
 
 def py_eval(e, light=False):
     """Same shape as the term `C08_eval` prints: (loop model batches = impl batches, model invalid count, model checkpoints,
-    model final table, (v_batches, v_invalid, v_nckpt, v_ckpts, v_sorted, v_final)).  light=True skips the aggregation
+    model final table, (v_batches, v_invalid, v_nckpt, v_ckpts, v_sorted, v_final, v_uniform, v_per_batch)).  light=True skips the aggregation
     inside the loop model (the model checkpoints/final are then taken from the reference side, which C08_model_spec
     proves equal)."""
     tbl = {}
@@ -436,6 +455,20 @@ def py_eval(e, light=False):
         want = [(k, py_median2(groups[k])) for k in sorted(groups)]
         ref_ckpts.append(want)
         v_ckpts.append(py_table_close(want, e["oc"][j] if j < len(e["oc"]) else []))
+    v_uniform = []
+    once_groups = {}
+    for b in ref:                                              # batch_uniformb / batch_once
+        seen = {}
+        ok_b = True
+        for k, z in score(b):
+            if k in seen:
+                ok_b = ok_b and seen[k] == z
+            else:
+                seen[k] = z
+        v_uniform.append(ok_b)
+        for k, z in seen.items():
+            once_groups.setdefault(k, []).append(z)
+    v_per_batch = py_table_close([(k, py_median2(once_groups[k])) for k in sorted(once_groups)], e["of"])
     want_all = ref_ckpts[-1] if ref_ckpts else []
     zs = [z for _, z in e["of"]]
     v_sorted = all(zs[i] <= zs[i + 1] for i in range(len(zs) - 1))
@@ -446,7 +479,7 @@ def py_eval(e, light=False):
         m_ckpts, m_final = ckpts, py_final_sort(py_aggregate(acc))
     enc_t = lambda tb: [(k[0], k[1], z) for k, z in tb]       # noqa: E731
     return ([[l[0] for l in b] for b in emitted] == e["ob"], m_inv, [enc_t(c) for c in m_ckpts], enc_t(m_final),
-            (v_batches, v_invalid, v_nckpt, v_ckpts, v_sorted, v_final))
+            (v_batches, v_invalid, v_nckpt, v_ckpts, v_sorted, v_final, v_uniform, v_per_batch))
 
 
 def impl_checkpoints(res):
@@ -507,20 +540,25 @@ def evaluate(run, cases, results):
     evaluated in Coq AND by the Python transcription (their outputs must coincide); scale files by the transcription."""
     exprs, idx, encs, encoded = [], [], {}, {}
     out = {}
-    stats = {"small_files_cross_checked": 0, "transcription_disagrees": [], "scale_files": 0}
+    stats = {"small_files_cross_checked": 0, "transcription_disagrees": [], "scale_files": 0, "non_finite_files": 0}
     for i, (c, r) in enumerate(zip(cases, results)):
         if not r.get("ok"):
             out[i] = ("impl-error", r.get("error"), None)
             continue
         enc = Enc(r)
+        partial = False
         if not enc.finite:
-            out[i] = ("non-finite", None, None)
-            continue
-        encs[i] = enc
+            # a non-finite score: the score-free clauses (batches, invalid count) are still judged
+            partial = True
+            stats["non_finite_files"] += 1
+            r = dict(r, batches=[dict(b, triplets=None, ckpt_before=None) for b in r["batches"]], ckpt_after=None,
+                     pairwise=None, grouped=None)
+            enc = Enc(r)
+        encs[i] = None if partial else enc
         encoded[i] = encode_case(c, r, enc)
         if is_scale(c):
             stats["scale_files"] += 1
-            out[i] = ("evaluated", py_eval(encoded[i], light=True), enc)
+            out[i] = ("evaluated", py_eval(encoded[i], light=True), encs[i])
         else:
             exprs.append(coq_case(encoded[i]))
             idx.append(i)
@@ -537,8 +575,11 @@ def evaluate(run, cases, results):
 def judge(case, res, val, enc):
     """-> list of (clause, detail) that fail for this case."""
     same_batches, m_inv, m_ckpts, m_final, verdict = val
-    v_batches, v_invalid, v_nckpt, v_ckpts, v_sorted, v_final = verdict
+    v_batches, v_invalid, v_nckpt, v_ckpts, v_sorted, v_final, v_uniform, v_per_batch = verdict
     fails = []
+    if enc is None:             # a non-finite score somewhere: only the score-free clauses are judged
+        v_nckpt, v_ckpts, v_sorted, v_final, v_uniform, v_per_batch = True, [], True, True, [], True
+        m_ckpts, m_final = [], []
     ref = py_reference(case)
     sizes = [len(b["ids"]) for b in res["batches"]]
     if not v_batches:
@@ -575,10 +616,84 @@ def judge(case, res, val, enc):
         elif not v_final:
             fails.append(("returned grouped frame = median of per-batch scores", table_diff(enc.back(m_final), res.get("grouped"))))
         # the returned frame is an observable of its own
-        g = table_diff(enc.back(m_final), res.get("grouped"))
-        if g and res.get("grouped") is not None or (res.get("grouped") is None and m_final):
-            fails.append(("grouped frame returned by estimate_importances_minibatches", g or "no frame returned"))
+        if enc is not None:
+            g = table_diff(enc.back(m_final), res.get("grouped"))
+            if g and res.get("grouped") is not None or (res.get("grouped") is None and m_final):
+                fails.append(("grouped frame returned by estimate_importances_minibatches", g or "no frame returned"))
+        # one score per batch and ordered pair
+        if not all(v_uniform):
+            j = v_uniform.index(False)
+            fails.append(("rows of one batch carry one score per ordered pair", "batch %d: %s" % (j + 1, batch_nonuniform(res, j))))
+        elif not v_per_batch and v_final:
+            fails.append(("final score of a pair = median of its per-batch scores (one score per batch)", per_batch_diff(case, res)))
     return fails
+
+
+def batch_nonuniform(res, j):
+    seen = {}
+    for a, b, sc in (res["batches"][j].get("triplets") or []):
+        if (a, b) in seen and seen[(a, b)] != sc:
+            return "pair %s,%s has scores %r and %r" % (a, b, seen[(a, b)], sc)
+        seen.setdefault((a, b), sc)
+    return "?"
+
+
+def per_batch_diff(case, res):
+    per = {}
+    rows = {}
+    for b in res["batches"]:
+        seen = {}
+        for a, bb, sc in (b.get("triplets") or []):
+            seen.setdefault((a, bb), sc)
+            rows[(a, bb)] = rows.get((a, bb), 0) + 1
+        for k, sc in seen.items():
+            per.setdefault(k, []).append(sc)
+    final = res.get("pairwise") if case.get("entry", "task") == "task" else res.get("grouped")
+    for a, bb, sc in (final or []):
+        l = sorted(per.get((a, bb), []))
+        if not l:
+            return "pair %s,%s has no recorded batch score" % (a, bb)
+        n = len(l)
+        med = l[n // 2] if n % 2 else (l[n // 2 - 1] + l[n // 2]) / 2
+        if not close(med, sc):
+            return ("pair %s,%s: per-batch scores %s (one per batch, %d batches; %d rows in all) have median %r, the "
+                    "implementation wrote %r" % (a, bb, l[:12], n, rows.get((a, bb), 0), med, sc))
+    return "tables differ"
+
+
+def comb_counts_check(case, res):
+    """combination_estimation_counts.json (written by the task) against the counter the function returned and against
+    the number of batches in which each candidate's rows were emitted.  -> None or a description of the difference."""
+    import ast as _ast
+    if case.get("entry", "task") != "task" or res.get("pairwise") is None:
+        return None
+    cj, cret = res.get("comb_counts_json"), res.get("comb_counts_ret")
+    if cj is None:
+        return "combination_estimation_counts.json was not written (%s)" % res.get("comb_counts_json_error", "missing")
+    if cret is not None:
+        want = {str(tuple(k)) if isinstance(k, list) else str(k): v for k, v in cret}
+        if want != cj:
+            d = sorted(set(want.items()) ^ set(cj.items()))[:4]
+            return "file differs from the returned counter: %s" % (d,)
+    emitted = {}
+    for b in res["batches"]:
+        for pair in {(a, bb) for a, bb, _ in (b.get("triplets") or [])}:
+            emitted[pair] = emitted.get(pair, 0) + 1
+    keys = set()
+    for k, v in cj.items():
+        try:
+            tup = _ast.literal_eval(k)
+        except Exception:
+            return "key %r is not the text of a tuple" % (k,)
+        if not (isinstance(tup, tuple) and len(tup) == 2):
+            return "key %r is not a pair" % (k,)
+        keys.add(tup)
+        if emitted.get(tup, 0) != v:
+            return "candidate %s: counted %s evaluations, its rows were emitted in %d batches" % (k, v, emitted.get(tup, 0))
+    for (a, bb) in emitted:
+        if (a, bb) not in keys and (bb, a) not in keys:
+            return "rows for pair %s,%s were emitted but the pair is not among the counted candidates" % (a, bb)
+    return None
 
 
 def shrink_variants(case):
@@ -648,9 +763,9 @@ def check(run, replay):
     else:
         cases = load_corpus("C08")
         n = 72 if run.tier == "quick" else 1200
-        fams = ["tail", "tail", "lines", "small", "random", "tail"]
+        fams = ["tail", "cap", "lines", "small", "random", "tail", "cap"]
         for i in range(n):
-            cases.append(gen_case(run.rng, fams[i % len(fams)] if i < 18 else None))
+            cases.append(gen_case(run.rng, fams[i % len(fams)] if i < 21 else None))
         if fallback:
             cases.extend(boundary_core())
         cases.extend(scale_cases(run.rng, run.tier))
@@ -669,6 +784,8 @@ def check(run, replay):
         run.violation("broken-obligation", "harness: Python transcription disagrees with C08_eval", found_input=False,
                       extra={"case": cases[stats["transcription_disagrees"][0]]})
     run.cov["scale"] = stats
+    run.oblige("no generated file is dropped from the judgement (%d with a non-finite score: judged on batches and invalid "
+               "count only)" % stats["non_finite_files"], True)
     run.oblige("correspondence:batches/invalid/checkpoints/final table vs reference semantics (C08_check in Coq; "
                "scale files by the cross-checked transcription)", True)
 
@@ -677,7 +794,7 @@ def check(run, replay):
     failing = []
     for i, (c, r) in enumerate(zip(cases, results)):
         ref = py_reference(c)
-        run.count_case({k: c[k] for k in ("B", "s", "cols", "segments", "heuristic", "target_only", "entry")}, nontrivial(c, ref))
+        run.count_case({k: c.get(k) for k in ("B", "s", "cols", "segments", "heuristic", "target_only", "entry", "cap")}, nontrivial(c, ref))
         for key, val in (("family", c.get("family", "?")), ("B", c["B"]), ("s", c["s"]), ("batches", len(r.get("batches", []))),
                          ("entry", c.get("entry", "task")), ("heuristic", c["heuristic"])):
             hist[key][str(val)] = hist[key].get(str(val), 0) + 1
@@ -690,9 +807,8 @@ def check(run, replay):
             hist["impl_errors"] += 1
             failing.append((i, [("the ranking task terminates normally", val)]))
             continue
-        if kind == "non-finite":
-            hist["non_finite"] += 1
-            continue
+        if enc is None:
+            hist["non_finite"] += 1          # judged on batches / invalid count only (see judge)
         if not val[0]:
             hist["model_loop_differs_from_impl_batches"] += 1
         fails = judge(c, r, val, enc)
@@ -704,6 +820,14 @@ def check(run, replay):
                 d = sorted(set(cons) ^ want, key=lambda x: (len(x), x))[:6]
                 fails.append(("consumed rows (value counter of the id column)",
                               "%d distinct ids counted, reference %d; differing ids %s" % (len(cons), len(want), d)))
+        if not fails and enc is not None:
+            cc = comb_counts_check(c, r)
+            hist["comb_count_files_compared"] = hist.get("comb_count_files_compared", 0) + (
+                1 if c.get("entry", "task") == "task" and r.get("pairwise") is not None else 0)
+            if cc:
+                fails.append(("combination_estimation_counts.json = evaluations per candidate", cc))
+        if c.get("cap", 2 ** 15) < (len(c["cols"]) if c["target_only"] == "True" else len(c["cols"]) * (len(c["cols"]) + 1) // 2):
+            hist["binding_cap_files"] = hist.get("binding_cap_files", 0) + 1
         if r.get("wrapper_missing"):
             run.violation("broken-obligation", "correspondence:observation point core_ranking.compute_batch_ranking not found",
                           found_input=False, extra="batches could not be recorded; only the consumed-id counter, the checkpoint "
@@ -742,7 +866,7 @@ def check(run, replay):
         run.obligations[-1] = (run.obligations[-1][0], False, "%d files rejected" % len(failing))
     run.cov["input_distribution"] = hist
     run.cov["exhaustive"] = False
-    run.cov["tolerance"] = "scores: |model - impl| <= 1e-12 * max(|.|) (pandas averages the two middle floats in binary64); everything else exact"
+    run.cov["tolerance"] = "aggregated scores: |model - impl| <= 2^-52 * max(|.|) (one ulp: pandas rounds x + y of the two middle floats once); odd group sizes and everything else exact"
     run.samples = [{k: v for k, v in c.items()} for c in cases[:3]]
     run.assumptions += [
         "heuristic <> 'Constant' (the loop checkpoints only then); B >= 1, s >= 1",
